@@ -318,6 +318,130 @@ def unit_nldf(version, level, rho_mult):
     return run
 
 
+def unit_plan_new(kind):
+    """NLDFAuxiliaryPlan.new(**kwargs): a plan with the same parameters except those overridden.  ensures, for nspin = 1 and 2 alike, every constructor
+    parameter that is not overridden is carried over UNCHANGED — in particular the density cutoff (stored spin-scaled as rhocut / nspin, the convention the
+    closed-shell identities of units nldf/* rest on): new().rhocut = self.rhocut, so that the derived plans of the two spin modes stand in the same
+    relation as the plans they come from."""
+    def run(ctx):
+        it = ctx.interp
+        fq = [PMOD + ":NLDFAuxiliaryPlan.new", PMOD + ":NLDFAuxiliaryPlan.__init__"]
+        RC = tm.var("rhocut")
+        derived = {}
+        for nspin in (1, 2):
+            hyps = []
+            st = make_settings(it, "j", "MGGA", "one", hyps)
+            hyps.append(tm.mk_lt(tm.ZERO, RC))
+            p = make_plan(it, st, nspin, nalpha=2, hyps=hyps, rhocut=RC, kind=kind)
+            for label, kw in (("new()", {}), ("new(coef_order='qg')", {"coef_order": "qg"}), ("new().new()", None)):
+                try:
+                    q = it.call_method(it.call_method(p, "new", [], {}), "new", [], {}) if kw is None else it.call_method(p, "new", [], dict(kw))
+                except (PyRaise, Unsupported) as e:
+                    ctx.undecided("%s nspin=%d %s runs" % (kind, nspin, label), str(e)[:200], fq)
+                    continue
+                tag = "%s nspin=%d %s" % (kind, nspin, label)
+                ctx.equal("%s: the spin-scaled density cutoff of the derived plan is the one of the original plan" % tag, hyps, q.fields["rhocut"], p.fields["rhocut"], fq,
+                          replay=replay_plan_new())
+                ctx.equal("%s: derived cutoff = rhocut / nspin" % tag, hyps, q.fields["rhocut"], RC / nspin, fq, replay=replay_plan_new())
+                for a in ("nspin", "alpha0", "lambd", "coef_order", "alpha_formula", "proc_inds", "expcut", "nldf_settings"):
+                    if a in (kw or {}):
+                        ctx.holds("%s: %s overridden" % (tag, a), q.fields.get(a) == kw[a], str(q.fields.get(a)), fq)
+                        continue
+                    x, y = q.fields.get(a), p.fields.get(a)
+                    same = (x is y) or (isinstance(x, (int, str, Q)) and x == y) or (isinstance(x, tm.T) and isinstance(y, tm.T) and tm.lift(x) is tm.lift(y))
+                    ctx.holds("%s: %s carried over" % (tag, a), bool(same), "%s vs %s" % (str(x)[:40], str(y)[:40]), fq)
+                ctx.holds("%s: nalpha carried over" % tag, int(q.fields["nalpha"]) == 2, str(q.fields["nalpha"]), fq)
+                derived[(nspin, label)] = (q, hyps)
+        if (1, "new()") in derived and (2, "new()") in derived:
+            (q1, h1), (q2, h2) = derived[(1, "new()")], derived[(2, "new()")]
+            ctx.equal("%s: derived plans of the two spin modes: per-spin cutoff of nspin=2 is half the unpolarised one" % kind, h1, q2.fields["rhocut"], HALF * tm.lift(q1.fields["rhocut"]), fq,
+                      replay=replay_plan_new())
+            ctx.canary("%s plan.new canary" % kind, h1, q2.fields["rhocut"], q1.fields["rhocut"])
+    return run
+
+
+def replay_plan_new():
+    def replay(wit):
+        from pyvc import native
+        native.install_shim()
+        from ciderpress.dft.settings import NLDFSettingsVJ
+        from ciderpress.dft.plans import NLDFGaussianPlan
+        st = NLDFSettingsVJ("MGGA", [1.0, 0.0, 0.03125], "one", ["se_ar2"], [[2.0, 0.0, 0.04]])
+        out = {}
+        for nspin in (1, 2):
+            p = NLDFGaussianPlan(st, nspin, 0.01, 1.8, 10, rhocut=1e-6)
+            out[nspin] = (p.rhocut, p.new().rhocut)
+        n, z = np.array([0.6e-6]), np.array([0.0])
+        a1 = NLDFGaussianPlan(st, 1, 0.01, 1.8, 10, rhocut=1e-6).new().eval_feat_exp((n, z, z), i=-1)[0]
+        a2 = NLDFGaussianPlan(st, 2, 0.01, 1.8, 10, rhocut=1e-6).new().eval_feat_exp((n / 2, z, z), i=-1)[0]
+        return {"reproduced": bool(out[2][0] != out[2][1] or out[1][0] != out[1][1]), "rhocut_of_plan_and_of_plan.new()": {str(k): list(v) for k, v in out.items()},
+                "closed_shell_exponent_at_n=6e-7_unpolarised_vs_polarised_through_new()": [float(a1[0]), float(a2[0])]}
+    return replay
+
+
+def unit_libxc_ss(ctx):
+    """Same-spin libxc baselines (get_libxc_baseline_ss, also the SS part subtracted by get_libxc_baseline_os), with the libxc entry point under its
+    contract (an unspecified differentiable energy density B of (n_a, n_b, s_aa, s_ab, s_bb); no symmetry of B is assumed):
+       separable      E_ss[n_a, n_b] = (E_ss[2 n_a] + E_ss[2 n_b]) / 2   with s_aa -> 4 s_aa (the gradient of 2 n_a)
+       exchange       swapping the channels (n_a <-> n_b, s_aa <-> s_bb) leaves E unchanged and swaps vrho and (vsigma_aa, vsigma_bb); vsigma_ab = 0
+       closed shell   E_ss[n/2, n/2] = E_ss[n], both vrho channels = the unpolarised vrho."""
+    it = ctx.interp
+    b = it.load_module(c04.BMOD)
+    c04.libxc_contract(it)
+    fq = [c04.BMOD + ":get_libxc_baseline_ss", c04.BMOD + ":get_libxc_baseline"]
+    ctx.assume("libxc (ctypes entry point get_gga_baseline): energy per particle of an unspecified differentiable energy density B, v* = partial derivatives of B; no spin symmetry of B is assumed for the same-spin recombination")
+    na, nb = sym_array("na", (NS,)), sym_array("nb", (NS,))
+    saa, sab, sbb = sym_array("saa", (NS,)), sym_array("sab", (NS,)), sym_array("sbb", (NS,))
+    H = [tm.mk_lt(tm.ZERO, x) for x in list(na) + list(nb)]
+    it.hyps = list(H)
+    mk2 = lambda ra, rb, s0, s1, s2: (np.array([list(ra), list(rb)], dtype=object), np.array([list(s0), list(s1), list(s2)], dtype=object))
+    mk1 = lambda r, s_: (np.array([list(r)], dtype=object), np.array([list(s_)], dtype=object))
+    for xcid in b.ns["SS_GGA_CODES"]:
+        run = lambda tup: it.call(b.ns["get_libxc_baseline"], [xcid, tup], {})
+        try:
+            e2, vr2, vs2 = run(mk2(na, nb, saa, sab, sbb))
+            ex, vrx, vsx = run(mk2(nb, na, sbb, sab, saa))
+            e1a, vr1a, vs1a = run(mk1([2 * tm.lift(x) for x in na], [4 * tm.lift(x) for x in saa]))
+            e1b, vr1b, vs1b = run(mk1([2 * tm.lift(x) for x in nb], [4 * tm.lift(x) for x in sbb]))
+            ec, vrc, vsc = run(mk2(na, na, saa, saa, saa))
+        except (PyRaise, Unsupported) as e:
+            ctx.undecided("libxc_ss[%s] runs" % xcid, str(e)[:200], fq)
+            continue
+        for g in range(NS):
+            t = "libxc_ss[%s] point %d" % (xcid, g)
+            ctx.equal("%s: separable E[n_a, n_b] = (E[2 n_a] + E[2 n_b]) / 2" % t, H, e2[g], HALF * (tm.lift(e1a[g]) + tm.lift(e1b[g])), fq, replay=replay_libxc_ss(xcid))
+            ctx.equal("%s: exchanging the spin channels leaves the energy unchanged" % t, H, ex[g], e2[g], fq, replay=replay_libxc_ss(xcid))
+            ctx.equal("%s: exchange swaps vrho (a <- b)" % t, H, vrx[0, g], vr2[1, g], fq, replay=replay_libxc_ss(xcid))
+            ctx.equal("%s: exchange swaps vrho (b <- a)" % t, H, vrx[1, g], vr2[0, g], fq, replay=replay_libxc_ss(xcid))
+            ctx.equal("%s: exchange swaps vsigma_aa and vsigma_bb" % t, H, vsx[0, g], vs2[2, g], fq, replay=replay_libxc_ss(xcid))
+            ctx.equal("%s: exchange swaps vsigma_bb and vsigma_aa" % t, H, vsx[2, g], vs2[0, g], fq, replay=replay_libxc_ss(xcid))
+            ctx.equal("%s: no cross-spin gradient dependence (vsigma_ab = 0)" % t, H, vs2[1, g], tm.ZERO, fq)
+            ctx.equal("%s: per-channel vrho = unpolarised vrho at the doubled channel density" % t, H, vr2[0, g], vr1a[0, g], fq, replay=replay_libxc_ss(xcid))
+            ctx.equal("%s: closed shell E[n/2, n/2] = E[n]" % t, H, ec[g], e1a[g], fq, replay=replay_libxc_ss(xcid))
+            ctx.equal("%s: closed shell: both channels carry the unpolarised vrho" % t, H, vrc[1, g], vr1a[0, g], fq)
+        ctx.canary("libxc_ss[%s] canary" % xcid, H, e2[0], e1a[0])
+
+
+def replay_libxc_ss(xcid):
+    def replay(wit):
+        from pyvc import native
+        native.install_shim()
+        from ciderpress.dft.baselines import get_libxc_baseline
+        rng = np.random.RandomState(5)
+        ng = 6
+        ga, gb = rng.randn(3, ng), rng.randn(3, ng)
+        na, nb = rng.rand(ng) + 0.2, rng.rand(ng) + 0.3
+        sig = np.array([np.sum(ga * ga, 0), np.sum(ga * gb, 0), np.sum(gb * gb, 0)])
+        e2 = get_libxc_baseline(xcid, (np.array([na, nb]), sig.copy()))[0]
+        ex = get_libxc_baseline(xcid, (np.array([nb, na]), sig[::-1].copy()))[0]
+        e1a = get_libxc_baseline(xcid, (np.array([2 * na]), np.array([4 * sig[0]])))[0]
+        e1b = get_libxc_baseline(xcid, (np.array([2 * nb]), np.array([4 * sig[2]])))[0]
+        d_sep = float(np.max(np.abs(e2 - 0.5 * (e1a + e1b))))
+        d_ex = float(np.max(np.abs(e2 - ex)))
+        return {"reproduced": bool(max(d_sep, d_ex) > 1e-10), "max_dev_separability": d_sep, "max_dev_exchange": d_ex, "xcid": xcid}
+    return replay
+
+
 def sym_base(tag):
     # spin-exchange symmetric baseline: M(a, b) = S(a, b) + S(b, a)   (contract of an exchange-correlation functional of two equivalent spins)
     def base(X):
@@ -681,6 +805,19 @@ def units():
                 u.append(("nldf/%s/%s/%s" % (version, level, rm), unit_nldf(version, level, rm)))
     for version in ("j", "ij"):
         u.append(("generator-spin/%s" % version, unit_generator_spin(version, "MGGA")))
+    u.append(("libxc-ss", unit_libxc_ss))
+    u.append(("plan-new/NLDFGaussianPlan", unit_plan_new("NLDFGaussianPlan")))       # new() is defined once, in the base class NLDFAuxiliaryPlan
+    # nr_rks followed by nr_uks on one integrator object: the cached generators must be rebuilt when the spin mode changes (history contract of
+    # initialize_feature_generators, shared with C06 where the molecule / grid change)
+    from contracts import c06
+    for cn in ("NLDFNumInt", "NLDFNLOFNumInt", "NLOFNumInt", "CiderNumInt"):
+        u.append(("gen-cache/" + cn, c06.unit_gen_cache(cn)))
+    # the spin-symmetric evaluator contract assumed by the POL wrapper units, discharged on the C source: value contract of the spin kernels
+    # (as C11 / C04) and the exchange-symmetry lemma over that contract
+    from contracts import ckernels
+    for fn in ("evaluate_se_kernel_spin", "evaluate_se_kernel_spin_v2"):
+        u.append(("c-kernel/" + fn, ckernels.unit_se_kernel(fn)))
+        u.append(("c-kernel-exchange/" + fn, ckernels.unit_spin_kernel_symmetry(fn)))
     u.append(("wrappers/v1", unit_wrappers(1)))
     u.append(("wrappers/v2", unit_wrappers(2)))
     u.append(("wrappers-rhocut/v1", unit_wrappers_rhocut(1)))
